@@ -63,10 +63,12 @@ def _known():
     return KNOWN
 
 
-def reference(t):
-    """expected outcome of Program(libraries=t) whatever happened before"""
+def reference(t, hist=()):
+    """expected outcome of Program(libraries=t): depends on t and on the commands that exist (library contents + classes defined
+    inside a library module by 'define-in' events), never on earlier Program constructions or imports"""
     found = {}
-    for module, name in _known():
+    dynamic = [(ev[1], ev[2]) for ev in hist if ev[0] == "define-in"]
+    for module, name in list(_known()) + dynamic:
         if any(module == lib or module.startswith(lib + ".") for lib in t):
             found.setdefault(name, set()).add(module)
     dup = sorted(n for n, mods in found.items() if len(mods) > 1)
@@ -125,6 +127,16 @@ def cases(tier):
     for f in firsts:
         for ev in last2:
             yield ([f], ev)
+    # depth 3, targeted: a library is used (or imported), then a NEW command class is defined inside that library's module, then programs
+    # are constructed again: the new command must be visible exactly as in a process where the first step never happened
+    for L in ["ulib", "ulib_extra", "upkg", "upkg.sub", E + ".basic"]:
+        others = ["ulib2", E + ".csv"]
+        for first in [None, ("program", (L,)), ("program", (L, others[0])), ("program", (others[1], L)), ("import", L), ("program", (others[0],))]:
+            for name in ("Dyn1",):
+                for t in [(L,), (L, others[0]), (others[1], L), (others[0],)]:
+                    h = ([first] if first else []) + [("define-in", L, name)]
+                    yield (h, ("program", t))
+                    yield (h + [("program", (L,))], ("program", t))
     if tier == "thorough":
         small = [E + ".basic", E + ".csv", "ulib", "ulib_extra", "ulib2", "upkg"]
         evs = _events(small, 1) + [("program", t) for t in itertools.permutations(small, 2) if t[0].startswith("u") or t[1].startswith("u")]
@@ -158,6 +170,13 @@ def _do(ev):
     if kind == "import":
         __import__(ev[1])
         return None
+    if kind == "define-in":
+        from mpilot.commands import Command
+
+        ns = {"__name__": ev[1], "Command": Command}
+        exec("class %s(Command):\n    def execute(self, **kw):\n        return 'dynamic'\n" % ev[2], ns)
+        _KEEP.append(ns)
+        return None
     if kind == "define":
         from mpilot.commands import Command
 
@@ -177,6 +196,9 @@ def _do(ev):
             pass
         return None
     raise ValueError(ev)
+
+
+_KEEP = []
 
 
 def _in_child(hist, last):
@@ -207,11 +229,11 @@ _BASE = {}
 
 def run(case):
     hist, last = case
-    hist = [(_e[0], tuple(_e[1]) if len(_e) > 1 and isinstance(_e[1], (list, tuple)) else (_e[1] if len(_e) > 1 else None)) if len(_e) > 1 else (_e[0],) for _e in hist]
+    hist = [tuple(tuple(x) if isinstance(x, (list, tuple)) else x for x in _e) for _e in hist]
     last = (last[0], tuple(last[1]))
     got = _in_child(hist, last)
     viols = []
-    ref = reference(last[1])
+    ref = reference(last[1], hist)
     tag = {"history": [list(map(str, e)) for e in hist], "probe": list(last[1])}
     kind = "from-empty-history" if not hist else "after-history"
     if got[0] in ("child-error", "child-died", "raised"):
